@@ -480,6 +480,108 @@ int runShutdown(int argc, char **argv)
     return 3;
 }
 
+// ------------------------------------------------------------------------------------ config
+// drv_app config <evfile> <specfile> <dir>: applies a configuration front-end as the spec says, then emits the spec's message
+// stream through Qt's logging front door (the expansion of qCDebug(cat) ... qCCritical(cat)).
+QString unhexs16(const std::string &h)
+{
+    if (h == "-" || h.empty()) return QString("");
+    auto hv = [](char c) { return c >= 'a' ? c - 'a' + 10 : c - '0'; };
+    QVector<QChar> u;
+    for (size_t k = 0; k + 3 < h.size(); k += 4)
+        u.append(QChar(ushort((hv(h[k]) * 16 + hv(h[k + 1])) | ((hv(h[k + 2]) * 16 + hv(h[k + 3])) << 8))));
+    return QString(u.constData(), u.size());
+}
+
+int runConfig(int argc, char **argv)
+{
+    if (argc < 5) return 3;
+    const QString dir = QString::fromLocal8Bit(argv[4]);
+    QFile spec(QString::fromLocal8Bit(argv[3]));
+    if (!spec.open(QIODevice::ReadOnly)) return 3;
+    QCoreApplication app(argc, argv);
+    const QString ini = dir + QStringLiteral("/cfg.ini");
+    QString mode;
+    struct Msg
+    {
+        int type;
+        QByteArray cat;
+        QString text;
+    };
+    QList<Msg> msgs;
+    bool onelineSeen = false;
+    QString olPath;
+    int olSize = 0, olCount = 0, olOpts = 0, olAsync = 1;
+    {
+        QSettings st(ini, QSettings::IniFormat);
+        while (!spec.atEnd()) {
+            const QList<QByteArray> t = spec.readLine().trimmed().split(' ');
+            if (t.isEmpty() || t[0].isEmpty()) continue;
+            if (t[0] == "MODE") {
+                mode = QString::fromLatin1(t[1]);
+            } else if (t[0] == "SET") {
+                const QString key = QStringLiteral("logger/") + QString::fromLatin1(t[1]);
+                if (t[2] == "b")
+                    st.setValue(key, t[3] == "1");
+                else if (t[2] == "i")
+                    st.setValue(key, t[3].toInt());
+                else
+                    st.setValue(key, unhexs16(t[3].toStdString()));
+            } else if (t[0] == "ONELINE") {
+                onelineSeen = true;
+                olPath = unhexs16(t[1].toStdString());
+                olSize = t[2].toInt();
+                olCount = t[3].toInt();
+                olOpts = t[4].toInt();
+                olAsync = t[5].toInt();
+            } else if (t[0] == "MSG") {
+                msgs.append({ t[1].toInt(), t[2] == "~" ? QByteArray("default") : unhexs16(t[2].toStdString()).toLatin1(),
+                              unhexs16(t[3].toStdString()) });
+            }
+        }
+        st.sync();
+    }
+    if (mode == QLatin1String("ini")) {
+        gQtLogger.configureFromIniFile(ini);
+    } else if (mode == QLatin1String("settings")) {
+        QSettings st(ini, QSettings::IniFormat);
+        gQtLogger.configure(st);
+    } else if (mode == QLatin1String("oneline") && onelineSeen) {
+        gQtLogger.configure(olPath, olSize, olCount, RotatingFileSink::Options(olOpts), olAsync != 0);
+    } else if (mode == QLatin1String("onelinedefault")) {
+        gQtLogger.configure();
+    } else {
+        return 3;
+    }
+    QTimer::singleShot(0, &app, [&]() {
+        int line = 0;
+        for (const Msg &m : msgs) {
+            ++line;
+            QLoggingCategory lc(m.cat.constData());
+            const QtMsgType type = m.type == 0 ? QtDebugMsg : m.type == 1 ? QtInfoMsg : m.type == 2 ? QtWarningMsg
+                                                                                               : m.type == 4 ? QtFatalMsg : QtCriticalMsg;
+            if (type != QtFatalMsg && !lc.isEnabled(type)) {
+                ev('Q', line); // Qt's own category rules would have swallowed it: the harness runs with none
+                continue;
+            }
+            QMessageLogger ml("src/app/main.cpp", line, "int app::run(int)", lc.categoryName());
+            const QByteArray text = m.text.toUtf8();
+            switch (type) {
+            case QtDebugMsg: ml.debug("%s", text.constData()); break;
+            case QtInfoMsg: ml.info("%s", text.constData()); break;
+            case QtWarningMsg: ml.warning("%s", text.constData()); break;
+            case QtFatalMsg: ml.fatal("%s", text.constData()); break; // aborts the process
+            default: ml.critical("%s", text.constData()); break;
+            }
+            ev('A', line);
+        }
+        app.quit();
+    });
+    app.exec();
+    evs("exec-returned");
+    return 0;
+}
+
 } // namespace
 
 int main(int argc, char **argv)
@@ -496,6 +598,7 @@ int main(int argc, char **argv)
     int rc = 3;
     if (mode == "fatal") rc = runFatal(argc, argv);
     if (mode == "shutdown") rc = runShutdown(argc, argv);
+    if (mode == "config") rc = runConfig(argc, argv);
     char buf[96];
     int n = snprintf(buf, sizeof buf, "# %lld hooks total=%llu noise=%llu sync=%llu wait=%llu\n", (long long)g_ticket.load(),
                      (unsigned long long)vhook::totalPoints(), (unsigned long long)vhook::noiseApplied(),
